@@ -54,9 +54,10 @@ func (f Feat) Features() rm.Features {
 
 // Pre is the pre-existing target state.
 type Pre struct {
-	Mode     string   `json:"mode"`      // empty | partial | complete | stale | extra
-	Keep     []string `json:"keep"`      // digests of the graph present at the target before the copy
-	StaleTag bool     `json:"stale_tag"` // the target tag points at unrelated content
+	Mode     string   `json:"mode"`               // empty | partial | complete | stale | extra
+	Keep     []string `json:"keep"`               // digests of the graph present at the target before the copy
+	StaleTag bool     `json:"stale_tag"`          // the target tag points at unrelated content
+	Symlinks bool     `json:"symlinks,omitempty"` // layout target: the pre-existing blob files are symlinks into a content store
 }
 
 // CopyOpts is the generated option set.
@@ -218,6 +219,7 @@ func Gen(t *rapid.T, o GenOptions) Case {
 	c.Procs = rapid.SampledFrom([]int{1, 4, 16}).Draw(t, "procs")
 	c.TgtByDigest = rapid.IntRange(0, 7).Draw(t, "bydigest") == 0
 	c.SrcForm = rapid.SampledFrom([]string{"", "", "", "", "digest", "tag+digest"}).Draw(t, "srcform")
+	c.Pre.Symlinks = c.Pre.Mode != "empty" && rapid.IntRange(0, 3).Draw(t, "pre_symlinks") == 0
 	c.LayoutNames = rapid.SampledFrom([]int{0, 0, 0, 1, 2, 3, 4, 5}).Draw(t, "layout_names")
 	c.TgtMirror = rapid.IntRange(0, 4).Draw(t, "tgt_mirror") == 0
 	c.Cache = rapid.IntRange(0, 2).Draw(t, "cache") == 0
@@ -246,6 +248,9 @@ func (c Case) ClientClasses() []string {
 	}
 	if c.TgtMirror && (c.Pairing == "two-reg" || c.Pairing == "layout-reg") {
 		out = append(out, "host:target-has-a-mirror")
+	}
+	if c.Pre.Symlinks && (c.Pairing == "reg-layout" || c.Pairing == "two-layout") {
+		out = append(out, "pre:target-layout-blobs-are-symlinks")
 	}
 	if c.CancelAt > 0 {
 		out = append(out, map[bool]string{false: "caller:cancels-on-arrival-of-a-request", true: "caller:cancels-while-a-body-streams"}[c.CancelMid])
@@ -395,6 +400,28 @@ func Setup(c Case) (*Env, error) {
 			}
 			if err := pgNoRef.PutLayout(e.Tgt.Dir, st, kf); err != nil {
 				return nil, err
+			}
+			if c.Pre.Symlinks {
+				// a layout assembled by a build system / sharing blobs with a content store: every pre-existing
+				// file under blobs/<alg>/ is a symlink into a store next to the layout
+				store := filepath.Join(tmp, "store")
+				if err := os.MkdirAll(store, 0o777); err != nil {
+					return nil, err
+				}
+				algs, _ := os.ReadDir(filepath.Join(e.Tgt.Dir, "blobs"))
+				for _, a := range algs {
+					fs, _ := os.ReadDir(filepath.Join(e.Tgt.Dir, "blobs", a.Name()))
+					for _, f := range fs {
+						from := filepath.Join(e.Tgt.Dir, "blobs", a.Name(), f.Name())
+						to := filepath.Join(store, a.Name()+"-"+f.Name())
+						if err := os.Rename(from, to); err != nil {
+							return nil, err
+						}
+						if err := os.Symlink(to, from); err != nil {
+							return nil, err
+						}
+					}
+				}
 			}
 		}
 	} else if c.Pre.StaleTag {
